@@ -79,6 +79,8 @@ def walk_interior(build, v, tier):
                         '(%s)' % (r['crash'], implv), r)
             continue
         v.cov['evaluations'] += r['evaluations']
+        v.notes['walk_interior_ownership_audits'] = v.notes.get(
+            'walk_interior_ownership_audits', 0) + r.get('audits', 0)
         for m in r['mismatches']:
             v.violation('C11 %s %s %s expected=%s got=%s ctx=%s' % (
                 m['impl'], job['flavour'], m['what'],
